@@ -727,7 +727,7 @@ fn next_step(rng: &mut Rng, d: &Driver, c: &SaleCase, lits: &[u128]) -> Step {
             let flex = VARIANTS[c.variant].flex;
             let kind = if flex { 2 + rng.below(2) as u8 } else { rng.below(2) as u8 };
             let price = if rng.chance(2, 3) { around(rng, min) } else { public };
-            let ibc = if rng.chance(5, 6) { c.ibc } else { !c.ibc };
+            let ibc = if c.ibc { rng.chance(1, 2) } else { rng.chance(1, 6) };
             let s_in = rng.range(10, 200);
             Step::Op(Op::SetWhitelist { who: admin_or(rng), kind, start_in: s_in, end_in: s_in + rng.range(50, 400), price, ibc })
         }
@@ -944,6 +944,25 @@ fn corpus() -> Vec<Case> {
         c2.ibc = true;
         c2.steps = vec![ump(49), ump(110), at(start), ump(90), probe(BUYERS[0]), udp(49), udp(80), probe(BUYERS[1]), set_wl(variant, 10, 100, 60, true)];
         v.push(Case::Sale(c2));
+        // (G) attaching a whitelist after governance moved the minimum of an IBC-denominated
+        // factory to the native denom: the minimum's denom and the minter's own denom now differ
+        let mut g = base_case(variant);
+        g.ibc = true;
+        g.steps = vec![
+            sudo_min(70),
+            set_wl(variant, 100, 400, 69, false),   // native, below the new minimum: refused
+            set_wl(variant, 100, 400, 70, true),    // IBC: not the denom of the minimum in force: refused
+            set_wl(variant, 100, 400, 70, false),   // native, at the minimum: not the minter's own denom -> refused
+                                                    // on the four non-flex variants; the flex variants never compare
+                                                    // with their own denom and accept it
+            probe(BUYERS[0]),
+            at(150 * S),
+            probe(BUYERS[0]),                       // flex: whitelist active, quote 70 ustars for members
+            probe(STRANGER),
+            at(start),
+            probe(BUYERS[1]),
+        ];
+        v.push(Case::Sale(g));
         // (D) whitelist price while the attached whitelist is active; replacing it
         let mut dcase = base_case(variant);
         dcase.wl = true;
@@ -1450,6 +1469,8 @@ fn oe_spares(variant: usize, ibc: bool, min: u128, w0: u64) -> Vec<SpareWl> {
         SpareWl { kind, start_in: w0, end_in: w0 + 200, price: min, ibc },
         SpareWl { kind, start_in: w0 + 250, end_in: w0 + 400, price: min + 1, ibc },
         SpareWl { kind, start_in: w0, end_in: w0 + 200, price: min + 1, ibc: !ibc },
+        SpareWl { kind, start_in: w0, end_in: w0 + 200, price: min + 20, ibc: !ibc },
+        SpareWl { kind, start_in: w0, end_in: w0 + 200, price: min + 20, ibc },
     ]
 }
 
@@ -1525,6 +1546,22 @@ fn oe_corpus() -> Vec<Case> {
         v.push(Case::OeSale(OeSaleCase {
             cfg: oe_cfg(variant, true, 50, 100, true),
             steps: vec![oump(49), oump(110), oset_wl(3), oset_wl(1), oat(start), oump(90), oprobe(BUYERS[0])],
+        }));
+        // (B'') the D8 situation and SetWhitelist: every open-edition variant compares the whitelist's
+        // denom with its own denom AND with the minimum's, so nothing can be attached any more
+        v.push(Case::OeSale(OeSaleCase {
+            cfg: oe_cfg(variant, true, 50, 100, true),
+            steps: vec![
+                osudo_min(70),
+                oset_wl(3),                                                            // native 51 < 70: refused
+                oset_wl(4),                                                            // native 70: the minimum's denom, not the minter's: refused
+                oset_wl(5),                                                            // IBC 70: the minter's denom, not the minimum's: refused
+                oprobe(BUYERS[0]),
+                oat(350 * S),
+                oprobe(BUYERS[0]),
+                oat(start),
+                oprobe(BUYERS[0]),
+            ],
         }));
         // (C) attaching whitelists: price below / at the minimum, other denom, raised minimum; whitelist price while active
         v.push(Case::OeSale(OeSaleCase {
@@ -1818,6 +1855,7 @@ pub fn run(a: &Args) {
         oe_cases.extend(r.coq_oe);
     }
     rep.rule = "sale histories (UpdateMintPrice/UpdateDiscountPrice/RemoveDiscountPrice/SetWhitelist/sudo min_mint_price/UpdateStartTime/probing mints at quoted-1, quoted+1, other advertised prices and the quote) on each of the six vending minters, native and IBC-denominated factories, at start±1ns, +12h(−1,0,+1 ns), +1h(−1,0,+1 ns), prices at min±1 / old±1 / discount±1; plus create_minter probes at min−1/min/min+1 and the other denom; corpus first. evaluations = minter steps and creation messages executed on the real contracts; distinct_nontrivial = those that were accepted (state-changing) || part 2: the same on each of the three open-edition minters created through the open-edition factory (UpdateMintPrice/SetWhitelist of pre-created spare whitelists at price min-1/min/min+1 and the other denom/sudo min_mint_price/UpdateStartTime/probing mints; no discount operations exist there), with and without a token cap, native and IBC-denominated factories, at start±1ns and the end time; open-edition create_minter probes at min-1/min/min+1, the other denom and zero price without a cap".into();
+    rep.notes.push("SetWhitelist denom: the property text forbids attaching a whitelist priced in a denom different from the factory minimum in force; that is checked on all nine minters (whitelist-denom-differs-from-minimum). The four non-flex vending minters and the three open-edition minters additionally refuse a whitelist whose denom differs from the minter's own mint denom (stated in C07_set_whitelist_ok / C07_oe_set_whitelist_ok), and the monitor whitelist-denom-differs-from-mint-denom reports an accepted one there. The two vending wl-flex variants never had that check: after governance re-denominates the minimum of an IBC factory (the D8 situation) they accept a native-denom whitelist while selling in the IBC denom; this satisfies the property's clause (the whitelist is in the denom of the minimum in force), is a consequence of the recorded finding D8 and is deliberately not reported separately.".into());
     out.write_cases("C07", "From LP Require Import Num Pay Sg1 Bank MinterVending CreatePrice SaleCorr C07Corr.", "c07_case", "c07_check", &coq_cases, 6, &mut rep);
     if !oe_cases.is_empty() {
         out.write_cases("C07oe", "From LP Require Import Num Pay Sg1 Bank MinterVending MinterOpen SaleOeCorr.", "oecase", "sale_oe_check", &oe_cases, 6, &mut rep);
